@@ -449,8 +449,10 @@ class Check:
         self.violations.append((replay, no_input))
 
     def finish(self, extra_assumptions=()):
-        os.makedirs(os.path.join(VERIF, "evidence"), exist_ok=True)
-        rdir = os.path.join(VERIF, "replays", self.pid)
+        # a run against a scratch tree (VERIF_REPO, used to try seeded changes) never touches the evidence of /repo
+        out_root = VERIF if REPO == "/repo" else os.path.join(BUILD, "scratch-out-" + hashlib.md5(REPO.encode()).hexdigest()[:8])
+        os.makedirs(os.path.join(out_root, "evidence"), exist_ok=True)
+        rdir = os.path.join(out_root, "replays", self.pid)
         if os.path.isdir(rdir):
             for fn in os.listdir(rdir):
                 if fn.startswith("%s-%d-" % (self.tier, self.seed)):
@@ -471,7 +473,7 @@ class Check:
               "coverage": self.cov, "assumptions": list(extra_assumptions),
               "wall_s": round(time.time() - self.t0, 2), "violations": len(self.violations)}
         self.cov.setdefault("trusted_base", TRUSTED_BASE_COMMON)
-        with open(os.path.join(VERIF, "evidence", self.pid + ".json"), "w") as f:
+        with open(os.path.join(out_root, "evidence", self.pid + ".json"), "w") as f:
             json.dump(ev, f, indent=1, default=str)
         for l in lines:
             print(l)
@@ -524,7 +526,7 @@ def par_map(fn, items, workers=None):
 
 
 def workdir(pid):
-    d = os.path.join(BUILD, "work", pid)
+    d = os.path.join(BUILD, "work" if REPO == "/repo" else "work-" + hashlib.md5(REPO.encode()).hexdigest()[:8], pid)
     shutil.rmtree(d, ignore_errors=True)
     os.makedirs(d)
     return d
